@@ -436,7 +436,92 @@ def coq_shard(ctx, limit=120):
 
 
 # ---------------------------------------------------------------- entry points
+def public_save_stage(ctx):
+    """The same oracle through the PUBLIC entry point save(model_dir, name, output) that eval / solve / greedy / best_states
+    call - including the first save into a model directory that does not exist yet. The two plot savers are replaced by
+    no-ops for this stage (they write image files, not the results file); everything else of save() runs as it is."""
+    import shutil
+    save = _save_mod()
+    rng = ctx.rng
+    base = ctx.work / "c20_public"
+    real = dict(save.SAVERS)
+    stubs = {k: ((lambda *a, **k_: None) if f is not save.save_json else f) for k, f in real.items()}
+    plans = [0, 0, 1, 2] if ctx.quick else [0, 0, 0, 1, 1, 2, 3, 4]
+    try:
+        save.SAVERS.clear()
+        save.SAVERS.update(stubs)
+        for pi, n_earlier in enumerate(plans):
+            earlier = [{"name": f"old{i}", "out": entry_spec(rng, "tiny" if i else "small")} for i in range(n_earlier)]
+            new_out = sl.build_output(entry_spec(rng, rng.choice(["tiny", "small"])))
+            model_dir = base / "model"
+
+            def prepare():
+                if base.exists():
+                    shutil.rmtree(base)
+                base.mkdir(parents=True)
+                for h in earlier:                      # earlier runs through the real save(), untraced
+                    save.save(model_dir, h["name"], sl.build_output(h["out"]))
+                p = model_dir / "data.json"
+                return p.read_bytes() if p.exists() else None
+
+            def save_fn():
+                save.save(model_dir, "new_run", new_out)
+
+            old = prepare()
+            old_parsed = json.loads(old) if old is not None else {}
+            tr, outcome = cl.traced_save(save_fn, base)
+            if outcome != "completed":
+                ctx.violation(f"save() into {'a fresh' if old is None else 'an existing'} model directory {outcome}",
+                              {"earlier_runs": n_earlier}, found_input=True)
+                continue
+            new = (model_dir / "data.json").read_bytes()
+            n_ops = tr.n_inject
+            ctx.count("public_save_ops", n_ops)
+            for idx in range(1, n_ops + 1):
+                for mode in ("i", "d"):
+                    prepare()
+                    if mode == "i":
+                        t2, _ = cl.traced_save(save_fn, base, plan=(idx, "i"), keep_bytes=False)
+                        fired = t2.fired
+                    else:
+                        fired = cl.forked_save(save_fn, base, (idx, mode)) == cl.EXIT_INJECTED
+                    if not fired:
+                        continue
+                    ctx.evaluations += 1
+                    ctx.count("public_save_faults", mode)
+                    p = model_dir / "data.json"
+                    content = p.read_bytes() if p.exists() else None
+                    ok = content == old or content == new
+                    why = None
+                    if not ok:
+                        try:
+                            parsed = json.loads(content) if content is not None else {}
+                            # a file holding exactly the previous runs counts as "the previous file"
+                            ok = isinstance(parsed, dict) and set(parsed) == set(old_parsed) and \
+                                all(sl.json_same(old_parsed[k], parsed[k]) for k in old_parsed)
+                            why = None if ok else "parses, but is neither the previous runs nor the complete new file"
+                        except Exception as e:
+                            why = f"does not parse ({type(e).__name__})"
+                    if ok:
+                        ctx.nontrivial.add(("public", pi, idx, mode))
+                        continue
+                    ev = next((e for e in tr.events if e.get("idx") == idx), {})
+                    ctx.violation(f"save() interrupted ({'exception' if mode == 'i' else 'process death'}) at file operation {idx} of {n_ops} "
+                                  f"({ev.get('kind')} {Path(ev.get('path', '')).name}) with {n_earlier} earlier runs "
+                                  f"{'in a fresh model directory' if old is None else ''}: data.json afterwards {why}: {_show(content)}",
+                                  {"entry_point": "incomplete_cooperative.run.save.save", "earlier_runs": n_earlier, "fault_at_operation": idx,
+                                   "mode": mode, "operation": {k: str(v)[:80] for k, v in ev.items() if k != "data"},
+                                   "file_after": _show(content), "previous_file": _show(old)})
+                    return
+    finally:
+        save.SAVERS.clear()
+        save.SAVERS.update(real)
+        if base.exists():
+            shutil.rmtree(base)
+
+
 def run(ctx, proof):
+    public_save_stage(ctx)
     mism = []
     cases = make_cases(ctx)
     import time
